@@ -1862,3 +1862,27 @@ package gogen
 //@ ensures imp(old(p.names) == nil && old(len(cb.stk.data) - cb.current.base) >= 2, gforall(k, gforall(v, imp(RangeTypesOK(old(cb.stk.data[len(cb.stk.data)-1].Type), k, v), imp(old(cb.stk.data[cb.current.base].Type) != nil, AssignTypeOK(old(cb.stk.data[cb.current.base].Type), k))))))
 //@ ensures imp(old(p.names) == nil && old(len(cb.stk.data) - cb.current.base) == 3 && old(cb.stk.data[cb.current.base + 1].Val) != nil, gforall(k, gforall(v, imp(RangeTypesOK(old(cb.stk.data[len(cb.stk.data)-1].Type), k, v), imp(old(cb.stk.data[cb.current.base + 1].Type) != nil, AssignTypeOK(old(cb.stk.data[cb.current.base + 1].Type), v))))))
 
+
+// ---------------------------------------------------------------------------
+// C09 — the write-time pass that decides which imports are used
+
+// a path belongs to a module iff it is the module path or continues it after a '/'
+//@ func isPkgInMod
+//@ prop C09 C15
+//@ readonly
+//@ ensures result == (strings.HasPrefix(pkgPath, modPath) && (len(pkgPath) == len(modPath) || pkgPath[len(modPath)] == 47))
+
+// a qualified reference pkg.Name whose package identifier is the shared node of an import: the first visit marks the
+// import used and gives it its final name — a name that is neither a declared name nor another import's name in this
+// file (importName) — on the shared node and on its object, so every reference through that node prints the same
+// name; a second visit changes nothing
+//@ func (*astVisitor).Visit
+//@ prop C09
+//@ partial
+//@ requires p.pkg != nil && p.file != nil && p.pkg.importNames != nil
+//@ ensures imp(old(ImportRefUnused(node)), typeis(old(ImportRefIdent(node)).Obj.Data, importUsed))
+//@ ensures imp(old(ImportRefUnused(node)), old(ImportRefIdent(node)).Obj.Data.(importUsed))
+//@ ensures imp(old(ImportRefUnused(node)), (old(ImportRefIdent(node)).Name == old(ImportRefIdent(node).Name) && old(ImportRefIdent(node)).Obj.Name == old(ImportRefIdent(node).Obj.Name)) || (old(ImportRefIdent(node)).Name == old(ImportRefIdent(node)).Obj.Name && old(ImportRefIdent(node)).Name != old(ImportRefIdent(node).Name)))
+//@ ensures imp(old(ImportRefUnused(node)), !in(p.pkg.names, old(ImportRefIdent(node)).Name))
+//@ ensures imp(old(ImportRefUnused(node)), in(p.pkg.importNames, mkstruct(importName, old(ImportRefIdent(node)).Name, p.file.fname)))
+//@ ensures imp(typeis(node, *ast.SelectorExpr) && typeis(old(node.(*ast.SelectorExpr).X), *ast.Ident) && old(node.(*ast.SelectorExpr).X.(*ast.Ident).Obj) != nil && typeis(old(node.(*ast.SelectorExpr).X.(*ast.Ident).Obj.Data), importUsed) && old(node.(*ast.SelectorExpr).X.(*ast.Ident).Obj.Data.(importUsed)), unchanged("H!ast.Ident!Name") && unchanged("H!ast.Object!Data") && unchanged("H!ast.Object!Name"))
